@@ -16,5 +16,7 @@ _ENGINE_ASSUME = ['background flush is observed only at quiescence (concurrency:
 
 reg(Prop('C01', 'Kevo.Props.C01', facts=['facts:storage.*'], components=[ENGINE], fact_tags=['storage', 'memtable'],
          rule=_ENGINE_RULE, assumptions=_ENGINE_ASSUME))
-reg(Prop('C08', 'Kevo.Props.C08', facts=['facts:storage.*'], components=[ENGINE], fact_tags=['storage', 'memtable'],
-         rule=_ENGINE_RULE, assumptions=_ENGINE_ASSUME))
+from propdefs.c02_c03 import CRASH
+reg(Prop('C08', 'Kevo.Props.C08', facts=['facts:storage.*', 'facts:wal.AppendBatch.nextSequence'], components=[ENGINE, CRASH], fact_tags=['storage', 'memtable', 'wal'],
+         rule=_ENGINE_RULE + ' Plus component crash: after a kill at every instrumentation site the recovered last sequence must be the number of the '
+              'last recovered write and later writes continue above it.', assumptions=_ENGINE_ASSUME))
